@@ -132,12 +132,17 @@ func (c *cdbdriver) GetLocationByMap(ipnet *net.IPNet, mapID []byte, context Con
 	dlen += 2
 
 	// Find the maskLens
-	tmpmask, _ := ipnet.Mask.Size()
+	tmpmask, maskBits := ipnet.Mask.Size()
 	maxMask = uint8(tmpmask)
 
 	if ipnet.IP.To4() != nil {
 		// We only work with v6-mapped IPs
-		maxMask += 96
+		if maskBits == 8*net.IPv4len {
+			// a 32-bit mask counts from the start of the IPv4 address; an IPv4-mapped
+			// address that came with a 128-bit mask (IPv6-family client subnet) is already
+			// expressed in 128-bit terms
+			maxMask += 96
+		}
 		isv4 = true
 	}
 	// maskLens DB key: "\000/"
